@@ -621,7 +621,8 @@ META = {
              'that the DIRECTIO card is tested as a number and not as text, the file split formulas (ceil(n/bpf) files, '
              'remainder only in the last) and that no unsorted directory listing is indexed. Acceptance by an independent '
              'GUPPI reader is not decided. Also decided: non-owned cards (TELESCOP, OBSERVER, SRC_NAME) are assigned by the '
-             'configuration step only when absent or provably inherited from the input recording, and no character of a card '
+             'configuration step only when absent or when the key is tested not to be among the keys of the user\'s own dictionary '
+             '(taken in record() before anything is merged in; equality with the inherited value is not accepted as evidence), and no character of a card '
              'value is read at a fixed position without a length guard (empty string cards are valid). Also decided: on the '
              'writer side a textual DIRECTIO card decides the padding through its numeric value, never through its truthiness.',
     'note': 'Real arithmetic; f-string format specs compared syntactically; the card counter of each site is identified as its '
